@@ -418,6 +418,26 @@ def part_knots(rep, rng, drv, tier, A, E, cases=None):
                 ln = rng.randint(1, 6)
                 ns = [rng.randint(0, 6) for _ in range(ln)]
             cases.append((spec, a, b, ns, None if rng.random() < 0.7 else G.log_uniform(rng, 1e-13, 1e-9)))
+        # explicit atol that is a small but not negligible fraction (1 % .. 10 %) of the levelled error (the docstring suggests raising
+        # atol on numerical trouble): the error level is estimated by a default-atol call on the same problem first
+        for ci in range(6 if tier == "quick" else 40):
+            kind = rng.choice(["pow", "exp"])
+            spec, a, b = G.gen_function(rng, None, kinds=(kind,))
+            if b - a < 0.05:
+                b = a + rng.uniform(0.05, 2.0)
+                if kind == "pow":
+                    b = min(b, 10.0)
+            ns = [rng.randint(0, 3) for _ in range(rng.choice([2, 2, 3]))]
+            with warnings.catch_warnings():
+                warnings.simplefilter("ignore")
+                try:
+                    _k0, e0 = A.piecewise_polynomial_knots(G.make_f(spec).np, a, b, ns)
+                except Exception:  # noqa: BLE001  (judged in its own right by the default-atol cases above)
+                    continue
+            if not float(e0) > 1e-9:
+                continue
+            rep.count("knots_atol=1..10%_of_the_levelled_error")
+            cases.append((spec, a, b, ns, float(e0) * 10.0 ** rng.uniform(-2.0, -1.0)))
     reqs, meta = [], []
     for spec, a, b, ns, atol in cases:
         f = G.make_f(spec)
